@@ -378,6 +378,12 @@ def compare_family(P, rep, rule, kind, name, members, group, exceptions, method_
                     rep.ok(rule, "%s::%s::%s: %s differs from %s as documented: %s" % (kind, name, mname, f, ref, exc["reason"][:100]), F.loc, F.qn)
                     continue
                 two = len(have) == 2
+                um = unmodelled(rem + add)
+                if um:
+                    # the difference involves an idiom the canonical form does not model (a standard algorithm instead of a loop,
+                    # continue-style guards, a multi-statement helper): it cannot tell a restatement from a change
+                    rep.unknown(rule, "%s::%s::%s: %s and %s differ in lines using %s, which the sibling comparison does not model" % (kind, name, mname, f, ref, um))
+                    continue
                 rep.violation(rule, "%s::%s::%s: %s deviates from %s" % (kind, name, mname, f, "/".join(ref_members)), F.loc, F.qn,
                               "- " + " | ".join(x.strip() for x in rem[:4]) + "  + " + " | ".join(x.strip() for x in add[:4]),
                               "siblings implement one documented model; %s" % (
@@ -385,6 +391,21 @@ def compare_family(P, rep, rule, kind, name, members, group, exceptions, method_
                                   "this one differs from the majority"),
                               key="%s|%s|%s|%s|%s" % (rule, kind, name, mname, f),
                               witness="the same model parameters in a %s and in a %s" % (f, ref))
+
+
+UNMODELLED_RE = re.compile(r"\b(std::find(_if)?|std::transform|std::copy(_n)?|std::distance|std::accumulate|std::any_of|std::all_of|std::none_of|std::for_each|std::fill(_n)?|std::max_element|std::min_element|std::rotate_copy)\b|^\s*continue$|\[lambda|\(anonymous namespace\)::\w+\(")
+
+
+def unmodelled(lines):
+    """names of idioms in the differing lines that the canonical form has no normal form for"""
+    found = []
+    for l in lines:
+        m = UNMODELLED_RE.search(l)
+        if m:
+            t = m.group(0).strip()
+            if t not in found:
+                found.append(t)
+    return ", ".join(found)
 
 
 def match_exception(exceptions, kind, name, mname, ref, f, rem, add):
